@@ -126,6 +126,23 @@ Definition result_state (p : prepared) (r : cres cnode) : str :=
   | _ => []
   end.
 
+(* which error site of the model fired (used only to measure and to steer the coverage of the
+   rejected-input families; sites are the numbers written in Core.v) *)
+Definition result_site (r : cres cnode) : str :=
+  match r with
+  | Ok _ _ => [111; 107]
+  | Err (PUnexpected _ _ n) _ => [117] ++ dec (N.of_nat n)
+  | Err (PElse _ n) _ => [101] ++ dec (N.of_nat n)
+  | Err (PScan _) _ => [115]
+  | Panic n => [112] ++ dec (N.of_nat n)
+  | Fuel => [102]
+  end.
+Definition run_site (e : entry) (src : str) : str :=
+  match prepare src with
+  | Some p => result_site (run_entry e p)
+  | None => [102]
+  end.
+
 (* the comment list is part of the line only for parse_file *)
 Definition run_parse_state (e : entry) (src : str) : str * str :=
   match prepare src with
